@@ -172,6 +172,15 @@ fn goldens() -> Vec<Golden> {
         Golden { name: "nested array", make: || Envelope::new(CBOR::from(vec![CBOR::from(1u8), CBOR::from(vec![2u8, 3])])), hex: "8201820203" },
         Golden { name: "map (keys sorted by encoding)", make: || { let mut m = Map::new(); m.insert(10u8, 1u8); m.insert("a", 2u8); m.insert(-1i8, 3u8); m.insert(100u8, 4u8); Envelope::new(m) }, hex: "a40a011864042003616102" },
         Golden { name: "tagged", make: || Envelope::new(CBOR::to_tagged_value(100u64, "x")), hex: "d8646178" },
+        // values that are themselves the tagged CBOR of an envelope (or carry the leaf tag): still leaves
+        Golden { name: "CBOR of a leaf envelope", make: || Envelope::new(Envelope::new("x").to_cbor()), hex: "d8c8d8c96178" },
+        Golden { name: "CBOR of a known-value envelope", make: || Envelope::new(Envelope::new(KnownValue::new(4)).to_cbor()), hex: "d8c804" },
+        Golden { name: "CBOR of an assertion envelope", make: || Envelope::new(Envelope::new_assertion("p", "o").to_cbor()), hex: "d8c8a16170616f" },
+        Golden { name: "CBOR of a node envelope", make: || Envelope::new(Envelope::new("s").add_assertion("p", "o").to_cbor()), hex: "d8c882d8c96173a16170616f" },
+        Golden { name: "CBOR of a wrapped envelope", make: || Envelope::new(Envelope::new("x").wrap_envelope().to_cbor()), hex: "d8c8d8c8d8c96178" },
+        Golden { name: "value tagged #6.201", make: || Envelope::new(CBOR::to_tagged_value(201u64, "x")), hex: "d8c96178" },
+        Golden { name: "value tagged #6.200 that is no envelope", make: || Envelope::new(CBOR::to_tagged_value(200u64, "x")), hex: "d8c86178" },
+        Golden { name: "value tagged #6.24", make: || Envelope::new(CBOR::to_tagged_value(24u64, dcbor::ByteString::from(vec![0x61u8, 0x78]))), hex: "d818426178" },
         Golden { name: "date (epoch 0)", make: || Envelope::new(dcbor::Date::from_timestamp(0.0)), hex: "c100" },
         Golden { name: "date (fractional)", make: || Envelope::new(dcbor::Date::from_timestamp(1.5)), hex: "c1f93e00" },
         Golden { name: "date (negative)", make: || Envelope::new(dcbor::Date::from_timestamp(-100.0)), hex: "c13863" },
